@@ -190,9 +190,11 @@ def run_sync_case(scratch, case, parts, restart=True):
             node.start()
             await node.settle()
             result['obs1'] = await observe(node.db, model)
-            await node.shutdown()
         finally:
-            node.close()
+            try:
+                await node.shutdown()
+            finally:
+                node.close()
         if restart:
             reset_globals()
             env = make_env(db_dir, coin, case['reorg_limit'])
